@@ -10,7 +10,7 @@ REQUIRED = ["Never.C13.tail_call_restores_entry",
             "Never.Src.Tail.C13.tail_table_complete", "Never.Src.Tail.C13.tail_table_catch_and_nested", "Never.Src.Tail.C13.case_labels_covered",
             "Never.Src.Tail.C13.cTab_eq_refTab", "Never.Src.Tail.C13.marker_sound", "Never.Src.Tail.C13.marker_sound_c_partial",
             "Never.Src.Tail.C13.marker_complete", "Never.Src.Tail.C13.marker_complete_c", "Never.Src.Tail.C13.marker_skips_catch",
-            "Never.Src.Tail.C13.marker_skips_catch_c", "Never.Src.Tail.C13.tail_position_value",
+            "Never.Src.Tail.C13.marker_skips_catch_c", "Never.Src.Tail.C13.tail_position_value", "Never.Src.Tail.C13.tail_call_owes_handlers", "Never.Src.Tail.C13.tail_call_replaces_frame",
             "Never.Src.Tail.C13.operand_not_tail_counterexample", "Never.Src.Tail.C13.scrutinee_not_tail_counterexample"]
 
 def peak(r):
